@@ -16,7 +16,7 @@ McAssets == [x \in McCodes |-> CASE x = "T" -> [cat |-> 1, div |-> TRUE, repl |-
                                   [] x = "C" -> [cat |-> 3, div |-> TRUE, repl |-> TRUE, iss |-> "a4"]
                                   [] x = "G" -> [cat |-> 3, div |-> TRUE, repl |-> FALSE, iss |-> "a4"]]
 McMeta == [i \in McIds |-> CASE i = "T" -> {"a1", "a2"} [] i \in {"N1", "C1", "G1"} -> {"a1"} [] i \in {"N2", "C2"} -> {"a2"} [] OTHER -> {}]
-McAcc == {"a1", "a2", "a3", "a4", "I", "M1", "M2", "F", "R", "P", "Z", "KS", "KR", "KX", "KD", "KO"}
+McAcc == {"a1", "a2", "a3", "a4", "a5", "I", "M1", "M2", "F", "R", "P", "Z", "KS", "KR", "KX", "KD", "KO"}
 \* M1 / M2: the miner accounts of the two genesis deputies (registered by the genesis block without a deposit, income
 \* address I); F: founder = reward manager; R: the reward precompile.
 McCtx == [V |-> 200000, D |-> 100000, mindep |-> 300000, income |-> "I", pool |-> "P", zero |-> "Z", issuer |-> "a4",
@@ -59,6 +59,28 @@ McInitT    == [McInit EXCEPT !.bal = [a \in McAcc |-> CASE a = "a1" -> 408796 []
 McInitTerm  == [McInitT EXCEPT !.h = 5, !.T = 5, !.I = 1]
 McInitTerm2 == [McInitT EXCEPT !.h = 6, !.T = 6, !.I = 2]
 McInitStab  == [McInitT EXCEPT !.h = 6, !.T = 6, !.I = 1, !.stab = TRUE]
+\* a5 holds a key and owns nothing (the setup chain never touches it): the voter at balance zero.
+\* Sub transaction templates of mixed boxes.  SubFail is INVALID when the miner reaches it (a2 does not own 1000 LEMO): the
+\* whole box is given up and what the sub transactions before it did must be gone; SubOk is the control (the box is packaged).
+Sub(k, f, t, amt, code, id) == [k |-> k, f |-> f, t |-> t, amt |-> amt, c |-> code, id |-> id]
+SubFail == Sub("xfer", "a2", "a1", 1000, "", "")
+SubOk   == Sub("xfer", "a2", "a1", 100, "", "")
+\* vote-affecting sub transactions: a3 tops up across / below a 100-LEMO deposit boundary, a3 unregisters, a4 registers,
+\* a2 (weight 0) / a1 (weight 2, votes for a3) vote
+McVoteSubs == {Sub("topup", "a3", "", 100, "", ""), Sub("topup", "a3", "", 50, "", ""), Sub("unreg", "a3", "", 0, "", ""),
+               Sub("reg", "a4", "", 300, "", ""), Sub("vote", "a2", "a3", 0, "", ""), Sub("vote", "a1", "a4", 0, "", "")}
+McBoxVote == {<<x, e>> : x \in McVoteSubs, e \in {SubFail, SubOk}}
+             \cup {<<Sub("reg", "a4", "", 300, "", ""), Sub("vote", "a1", "a4", 0, "", ""), e>> : e \in {SubFail, SubOk}}
+McBoxVoteQ == {q \in McBoxVote : q[Len(q)] = SubFail \/ q[1].k \in {"topup", "vote"}}
+\* asset sub transactions towards FIRST-TIME holders (a3 / KS never held anything) and, as the control, an old holder (a2):
+\* transfer of a token, of a whole non-fungible id, of a common asset; the issuer replenishes towards a first-time holder
+McAssetSubs == {Sub("axfer", "a1", "a3", 40, "", "T"), Sub("axfer", "a1", "a3", 1, "", "N1"), Sub("axfer", "a1", "KS", 40, "", "C1"),
+                Sub("axfer", "a1", "a2", 40, "", "T"), Sub("repl", "a4", "a3", 50, "T", "T"), Sub("repl", "a4", "KS", 50, "C", "C1")}
+McBoxAsset == {<<x, e>> : x \in McAssetSubs, e \in {SubFail, SubOk}}
+              \cup {<<Sub("axfer", "a1", "a3", 40, "", "T"), Sub("axfer", "a1", "a3", 40, "", "C1"), SubFail>>}
+\* ... and an ISSUE towards a first-time holder (it also writes the id's metadata into the receiver's account)
+McBoxAssetW == McBoxAsset \cup {<<Sub("issue", "a4", "a3", 50, "T", "T"), e>> : e \in {SubFail, SubOk}}
+McBoxAssetQ == {q \in McBoxAsset : q[Len(q)] = SubFail \/ q[1].t = "a3"}
 McGas == [xfer |-> 21000, vote |-> 35000, reg |-> 112000, topup |-> 112000, unreg |-> 112000, issue |-> 63000,
           repl |-> 70000, axfer |-> 39000, freeze |-> 43000, unfreeze |-> 43000, box |-> 40000, setrew |-> 24000]
 \* amount classes of the asset transactions (cfg files cannot hold negative numbers): negative, zero, one, all of
